@@ -18,6 +18,8 @@
 #include <unistd.h>
 
 #include <chrono>
+#include <condition_variable>
+#include <mutex>
 #include <cstdio>
 #include <cstring>
 #include <functional>
@@ -97,6 +99,29 @@ std::vector<Scn> conf_scenarios() {
         t.push_back(rv("send_with_no_reader", r2));
         t.push_back(std::string("after_about_the_timeout=") + (ms2 >= 250 && ms2 < 1500 ? "1" : "0"));
         close_pair(p);
+    }});
+    v.push_back({"condition_variable_times_out_then_is_signalled", [](Trace& t) {
+        std::mutex m; std::condition_variable cv; bool flag = false;
+        {
+            std::unique_lock lk(m);
+            const auto t0 = std::chrono::steady_clock::now();
+            const bool got = cv.wait_for(lk, std::chrono::milliseconds(60), [&] { return flag; });
+            const auto ms = std::chrono::duration_cast<std::chrono::milliseconds>(std::chrono::steady_clock::now() - t0).count();
+            t.push_back(std::string("wait_for_without_signal=") + (got ? "1" : "0") + " after_about_60ms=" + (ms >= 55 && ms < 400 ? "1" : "0"));
+        }
+        std::thread th([&] { nap(30); { std::scoped_lock lk(m); flag = true; } cv.notify_all(); });
+        {
+            std::unique_lock lk(m);
+            const bool got = cv.wait_for(lk, std::chrono::seconds(5), [&] { return flag; });
+            t.push_back(std::string("wait_for_with_signal=") + (got ? "1" : "0"));
+        }
+        th.join();
+        int woken = 0; flag = false;
+        std::thread w1([&] { std::unique_lock lk(m); cv.wait(lk, [&] { return flag; }); ++woken; });
+        std::thread w2([&] { std::unique_lock lk(m); cv.wait(lk, [&] { return flag; }); ++woken; });
+        nap(30); { std::scoped_lock lk(m); flag = true; } cv.notify_all();
+        w1.join(); w2.join();
+        t.push_back("both_waiters_woken=" + std::to_string(woken));
     }});
     v.push_back({"recv_after_fin_returns_buffered_data_then_zero", [](Trace& t) {
         Pair p = make_pair();
